@@ -33,6 +33,9 @@ type PseudoRec struct {
 	Gives bool `json:"gives"`
 	Nq0   bool `json:"nq0"`
 	Nq1   bool `json:"nq1"`
+	C0    int  `json:"c0"` // generation class (GenClass of ChessRules.tla), promotions-as-non-quiet off / on
+	C1    int  `json:"c1"`
+	Cap   bool `json:"cap"`
 }
 
 type SanComp struct {
